@@ -21,10 +21,15 @@ RULE = (
     "by cotengra), must equal the minimum over all trees (search_outer) or "
     "over all outer-product-free trees (and then contain no outer product). "
     "Non-trivial = optimum differs from the value of the first-enumerated "
-    "(left-deep) tree or the outer/non-outer optima differ. Distinct = "
+    "(left-deep) tree or the outer/non-outer optima differ. A tenth of the "
+    "quick cases (a fifth in thorough) have 8..10 (..12) tensors: there the "
+    "reference is an independent dynamic programme over subsets of tensors "
+    "(all objectives are sums or maxima of per-step terms depending on the two "
+    "subsets only), cross-checked against the enumeration on every case with "
+    "n <= 6. Distinct = "
     "sha1(spec)."
 )
-ASSUMPTIONS = ["exhaustive enumeration bounds n <= 7"]
+ASSUMPTIONS = ["exhaustive enumeration bounds n <= 7; n = 8..10 (thorough: ..12) are judged by an independent subset dynamic programme, itself cross-checked against the enumeration on every case with n <= 6"]
 
 OBJ = ["flops", "size", "write", "max", "combo", "combo-7", "limit", "limit-3"]
 
@@ -114,11 +119,25 @@ def cases(draw, max_n):
     }
 
 
+@st.composite
+def big_cases(draw, lo, hi):
+    """8..12 tensors: beyond exhaustive enumeration, judged by the independent
+    subset dynamic programme of this module (``dp_optimum``)."""
+    c = draw(cases(hi))
+    tries = 0
+    while len(c["net"]["inputs"]) < lo and tries < 3:
+        c = draw(cases(hi))
+        tries += 1
+    c["oracle"] = "dp"
+    return c
+
+
 def strategy(tier, sub=None):
     if tier == "thorough":
-        return cases(7)
-    # quick: mostly n <= 6, a tenth of the cases may have 7 tensors (10 395 trees)
-    return st.integers(0, 9).flatmap(lambda i: cases(7) if i == 0 else cases(6))
+        return st.integers(0, 9).flatmap(lambda i: big_cases(8, 12) if i < 2 else cases(7))
+    # quick: mostly n <= 6, a tenth of the cases may have 7 tensors (10 395
+    # trees), another tenth 8..10 tensors (subset DP as the reference)
+    return st.integers(0, 9).flatmap(lambda i: cases(7) if i == 0 else big_cases(8, 10) if i == 1 else cases(6))
 
 
 def budget(tier, sub=None):
@@ -167,6 +186,58 @@ class Scorer:
         return tot, has_outer
 
 
+def dp_optimum(sc, n, minimize):
+    """Independent reference beyond enumeration: dynamic programme over subsets
+    of tensors. ``best[S]`` = least cost of contracting the tensors of S into
+    one, over every binary tree on S (all objectives here are monotone in the
+    costs of the two halves: sums or maxima of per-step terms that depend on
+    the two subsets only). Returns (optimum over all trees, optimum over
+    outer-product-free trees or None)."""
+    which, _, k = minimize.partition("-")
+    k = int(k) if k else 64
+    additive = which in ("flops", "write", "combo", "limit")
+
+    def term(f, s_):
+        return {"flops": f, "size": s_, "write": s_, "max": f, "combo": f + k * s_, "limit": max(f, k * s_)}[which]
+
+    full = (1 << n) - 1
+    sets = {m: frozenset(i for i in range(n) if m >> i & 1) for m in range(1, full + 1)}
+    best_all = {1 << i: 0 for i in range(n)}
+    best_no = {1 << i: 0 for i in range(n)}
+    by_size = sorted(range(1, full + 1), key=lambda m: bin(m).count("1"))
+    for m in by_size:
+        if m & (m - 1) == 0:
+            continue
+        low = m & -m
+        ba = bn = None
+        # every unordered split {a, b} of m: a contains the lowest tensor
+        rest = m ^ low
+        sub = rest
+        while True:
+            a = low | (rest ^ sub)  # a runs over low + every subset of rest
+            b = m ^ a
+            if b:
+                f, s_, outer = sc.step(sets[a], sets[b])
+                t = term(f, s_)
+                va, vb = best_all[a], best_all[b]
+                v = va + vb + t if additive else max(va, vb, t)
+                if ba is None or v < ba:
+                    ba = v
+                if not outer:
+                    na, nb = best_no.get(a), best_no.get(b)
+                    if na is not None and nb is not None:
+                        v = na + nb + t if additive else max(na, nb, t)
+                        if bn is None or v < bn:
+                            bn = v
+            if sub == 0:
+                break
+            sub = (sub - 1) & rest
+        best_all[m] = ba
+        if bn is not None:
+            best_no[m] = bn
+    return best_all[full], best_no.get(full)
+
+
 def run_case(spec, sub=None):
     from cotengra.pathfinders import path_basic as pb
 
@@ -187,15 +258,28 @@ def run_case(spec, sub=None):
 
     best_all = best_no = None
     first = None
-    for ssa in ref.all_binary_trees(n):
-        steps = ref.ssa_nodes(ssa, n)
-        v, has_outer = sc.score(steps, minimize)
-        if first is None:
-            first = v
-        if best_all is None or v < best_all:
-            best_all = v
-        if not has_outer and (best_no is None or v < best_no):
-            best_no = v
+    use_dp = spec.get("oracle") == "dp" and n >= 8
+    if use_dp:
+        best_all, best_no = dp_optimum(sc, n, minimize)
+        # (non-triviality is judged against the left-deep tree, as below)
+        first, _ = sc.score(ref.ssa_nodes([(0, 1)] + [(n + i, i + 2) for i in range(n - 2)], n), minimize)
+    else:
+        for ssa in ref.all_binary_trees(n):
+            steps = ref.ssa_nodes(ssa, n)
+            v, has_outer = sc.score(steps, minimize)
+            if first is None:
+                first = v
+            if best_all is None or v < best_all:
+                best_all = v
+            if not has_outer and (best_no is None or v < best_no):
+                best_no = v
+        if n <= 6:
+            # the two references must agree wherever both apply
+            dp_all, dp_no = dp_optimum(sc, n, minimize)
+            if (dp_all, dp_no) != (best_all, best_no):
+                from ..harness import HarnessError
+
+                raise HarnessError(f"subset DP {(dp_all, dp_no)} disagrees with enumeration {(best_all, best_no)}")
     if best_no is None:
         # cannot happen for a connected network
         from ..harness import HarnessError
@@ -234,7 +318,7 @@ def run_case(spec, sub=None):
                 if got != want:
                     viol.append(
                         f"optimal({minimize}, search_outer={spec['search_outer']}, cost_cap={cap}) "
-                        f"returned a path of cost {got}; exhaustive minimum over "
+                        f"returned a path of cost {got}; {'subset-DP' if use_dp else 'exhaustive'} minimum over "
                         f"{'all' if spec['search_outer'] else 'outer-product-free'} trees is {want}"
                     )
                 if not spec["search_outer"] and has_outer:
@@ -249,4 +333,6 @@ def run_case(spec, sub=None):
         cls.append("numpy_sizes")
     if any(ix for ix in sizes if sum(ix in t for t in inputs) >= 3):
         cls.append("hyper")
-    return Outcome(viol, nontrivial, cls, {"trees_enumerated": math.prod(range(1, 2 * n - 2, 2))})
+    if use_dp:
+        cls.append("reference=subset_dp")
+    return Outcome(viol, nontrivial, cls, {"trees_enumerated": 0 if use_dp else math.prod(range(1, 2 * n - 2, 2))})
